@@ -226,6 +226,34 @@ def r3_no_lost_update(ctx):
     ctx.floor(n, 4)
 
 
+def apply_qe_laws(ctx):
+    """apply_qe, per path: sampling on -> binomial(n = photons truncated to whole photons, p = qe), so the electrons never exceed the incident photons; sampling off -> exactly photons * qe (no rounding of the photons, linear in them)."""
+    from sa.paths import enumerate_paths
+
+    aq = ctx.func("pyxel.models.charge_generation.photoelectrons:apply_qe")
+    a, q, b = aq.params[:3]
+    rp = [q_ for q_ in enumerate_paths(aq.node.body) if q_.exit == "return" and q_.value is not None]
+    bino = [q_.value for q_ in rp if q_.holds(b) is True]
+    prod = [q_.value for q_ in rp if q_.holds(b) is False]
+    ok = len(bino) == 1 and len(prod) == 1 and len(rp) == 2
+    why = "apply_qe no longer draws binomial(n=photons, p=qe) / returns photons * qe"
+    if ok:
+        bc = [c_ for c_ in ast.walk(bino[0]) if isinstance(c_, ast.Call) and call_name(c_).endswith("binomial")]
+        ok = len(bc) == 1 and kw(bc[0], "n") is not None and dotted(kw(bc[0], "p")) == q
+        if ok:
+            n_txt = norm(kw(bc[0], "n"))
+            trunc_forms = {f"{a}.astype(int)", f"{a}.astype(np.int64)", f"{a}.astype('int')", f"np.floor({a}).astype(int)", f"np.trunc({a}).astype(int)", f"np.asarray({a}, dtype=int)", f"np.floor({a})", f"np.trunc({a})"}
+            ok = n_txt in trunc_forms
+            if not ok:
+                why = f"the number of binomial trials is {n_txt}: not the incident photons truncated to whole photons (rounding up lets a pixel yield more electrons than photons)"
+        if ok:
+            rounding = [c_ for c_ in ast.walk(prod[0]) if isinstance(c_, ast.Call) and (call_name(c_).split(".")[-1] in ("astype", "rint", "round", "floor", "ceil", "trunc", "int", "around") )]
+            ok = to_poly(prod[0]) == to_poly(ast.parse(f"{a} * {q}", mode="eval").body) and not rounding
+            if not ok:
+                why = f"with sampling off apply_qe returns {norm(prod[0])[:70]}: not exactly photons * qe (rounded photon counts make the yield depend on how an exposure is split)"
+    ctx.check(ok, aq.qual, "binomial(n=whole photons, p=qe) when sampling, photons * qe otherwise" if ok else why, where=aq, node=aq.node)
+
+
 def r4_simple_laws(ctx):
     """simple_collection is `pixel.array += charge.array`; full well assigns exactly the capacity it compares with; the QE range guard (scalar and map variant) dominates apply_qe; apply_qe draws binomial(n=photons, p=qe) or returns photons * qe."""
     sc = ctx.func(f"{MC}.collection:simple_collection")
@@ -254,20 +282,7 @@ def r4_simple_laws(ctx):
     st = [s for s, t in stores(sf.node, lambda t: dotted(t) == f"{sf.params[0]}.pixel.array")]
     ok = ok and len(st) == 1
     ctx.check(ok, sf.qual, "capacity = argument or detector characteristic, negative refused, result stored in pixel" if ok else "full-well wiring changed", where=sf, node=c[0] if c else sf.node)
-    aq = ctx.func("pyxel.models.charge_generation.photoelectrons:apply_qe")
-    a, q, b = aq.params[:3]
-    from sa.paths import enumerate_paths
-
-    # per path: what is returned when sampling is on / off (intermediates and early returns do not matter)
-    rp = [q_ for q_ in enumerate_paths(aq.node.body) if q_.exit == "return" and q_.value is not None]
-    bino = [q_.value for q_ in rp if q_.holds(b) is True]
-    prod = [q_.value for q_ in rp if q_.holds(b) is False]
-    ok = len(bino) == 1 and len(prod) == 1 and len(rp) == 2
-    if ok:
-        bc = [c_ for c_ in ast.walk(bino[0]) if isinstance(c_, ast.Call) and call_name(c_).endswith("binomial")]
-        ok = len(bc) == 1 and kw(bc[0], "n") is not None and a in names_in(kw(bc[0], "n")) and dotted(kw(bc[0], "p")) == q
-        ok = ok and to_poly(prod[0]) == to_poly(ast.parse(f"{a} * {q}", mode="eval").body)
-    ctx.check(ok, aq.qual, "binomial(n=photons, p=qe) when sampling, photons * qe otherwise" if ok else "apply_qe no longer draws binomial(n=photons, p=qe) / returns photons * qe", where=aq, node=aq.node)
+    apply_qe_laws(ctx)
     ctx.trust("np.random.binomial(n, p) returns values in 0..n")
     for fn, guard_pred in (
         ("simple_conversion", lambda t: norm(t) in ("not 0 <= final_qe <= 1", "not (0 <= final_qe <= 1)", "final_qe < 0 or final_qe > 1")),
